@@ -22,7 +22,8 @@ CHECKS = {
     "C02": dict(level="model_checking", design="§4 C02",
                 text="Spec-built well-formed frames (check sequences as terms over free control/payload octets, or over entirely free header fields) on clean streams with 1-3 flags of "
                      "fill and optional flag-free noise are run through the real reader for every single cut and byte-at-a-time in all four configurations; the solver proves per path "
-                     "that exactly the sent frames come out, valid, with the exact payload and header fields. Thorough adds 2046/2047-octet frames.",
+                     "that exactly the sent frames come out, valid, with the exact payload and header fields - also while a second reader object of the same configuration is fed free octets between the calls. "
+                     "A 2047-octet frame with a flag/escape-dense payload (more than 2047 octets on the wire) is in both tiers; thorough adds 2046/2047 in all configurations.",
                 note="Trusted: z3, symx proxies (per-path pristine replay), spec frame builder. Header and payload are not free at the same time; free payload <= 2+1 (quick) / 4+2+1 (thorough).",
                 technique="bounded symbolic execution of the real reader on spec-built symbolic frames (z3 + linear store)"),
     "C06": dict(level="model_checking", design="§4 C06",
@@ -40,15 +41,17 @@ CHECKS = {
                      "'Is a checksum' is read as exactly four hex digits; other texts after '!' carry no claim.",
                 technique="bounded symbolic execution of the real code on z3 terms; CRC16 in GF(2)-affine form compared with an independent bit-serial definition"),
     "C14": dict(level="model_checking", design="§4 C14",
-                text="HDLC reader (4 configurations) on 7/9 fully free octets and structured streams with every single cut and all message accessors; P1 reader and DataReadout accessors on six noise "
-                     "families with 3/5 free octets ('/'+free+LF, ident+free+LF, ident+data+'!'+free, '!' inside the ident line, ...); both protocol classes with [HDLC,P1] candidates. Any exception "
+                text="HDLC reader (4 configurations) on 7/9 fully free octets and structured streams with every single cut and all message accessors; an open frame that misses its announced length and reaches the 2047-octet limit with free octets (flags, escapes) around it; "
+                     "P1 reader and DataReadout accessors on seven noise "
+                     "families with 3/5 free octets ('/'+free+LF, ident+free+LF, ident+data+'!'+free, '!' inside the ident line, readout+free+readout, ...), an unfinished readout across the 8191 guard; both protocol classes with [HDLC,P1] candidates. Any exception "
                      "escaping on any feasible path is the violation; thorough also requires the clean suffix after the noise to be delivered (reader stays usable).",
                 note="Trusted: z3, symx proxies (per-path pristine replay). Exceptions raised by the models themselves are EngineLimit (inconclusive), never counted as passes.",
                 technique="bounded symbolic execution of the real readers/protocols on free octets; escaping exception on a feasible path = violation (z3 feasibility + concrete replay)"),
     "C16": dict(level="model_checking", design="§4 C16",
                 text="Free noise (3/5 octets, any value) and structured bad predecessors (too-short, escape-terminated/aborted, complete-but-damaged at any position, truncated at any position, "
                      "trailing escape) followed by three spec-built frames, every single cut, stuffing configurations: the solver proves per path that every clean frame except possibly the "
-                     "first is delivered valid; no-stuffing: frames starting beyond noise+2047+one frame length are delivered; P1: noise and readout-looking prefixes followed by three readouts.",
+                     "first is delivered valid; no-stuffing: frames starting beyond noise+2047+one frame length are delivered; P1: noise and readout-looking prefixes followed by three readouts, "
+                     "an unfinished readout across the buffer guard, and long clean suffixes whose second call brings more than 8 KiB at once.",
                 note="Trusted: z3, symx proxies (per-path pristine replay), spec frame/readout builders.",
                 technique="bounded symbolic execution of the real readers on free noise followed by spec-built messages (z3 + linear store)"),
     "C05": dict(level="model_checking", design="§4 C05",
@@ -76,19 +79,19 @@ CHECKS = {
     "C18": dict(level="model_checking", design="§4 C18",
                 text="Inductive-step lemma on the real ExponentialBackOff methods from an arbitrary invariant state (n and max_delay unbounded integers, pow2 uninterpreted with its defining instances): "
                      "every operation re-establishes the invariant and reports min(2^(n-1), max_delay). All failure/reset sequences of 10/14 calls with free max_delay. Manager traces on the virtual-time loop "
-                     "(6/8 attempts, 3 losses, default configuration; 4/6 attempts with max_delay, threshold and sleep free in 1..3600): every attempt starts no sooner than the capped back-off after "
+                     "(6/8 attempts, 3 losses, default configuration; 4/6 attempts and 2 losses, or 3/4 attempts and 3 losses, with max_delay, threshold and sleep free in 1..3600; two managers on one loop): every attempt starts no sooner than the capped back-off after "
                      "the failure and no later than max(back-off, breaker sleep); success resets; two losses within the threshold delay the next attempt by at least the sleep.",
                 note="Trusted: z3, VLoop (validated per path against the real asyncio scheduler), virtual utcnow. Durations are whole seconds; virtual time has no scheduling slack.",
                 technique="inductive-step SMT lemma over symbolically executed real methods + bounded symbolic execution of call sequences and of connect_loop with symbolic timing (z3)"),
     "C07": dict(level="model_checking", design="§4 C07-C09",
                 text="Every documented Aidon layout (NO lists 1-3 one/three phase, SE list) plus every ordered selection of <= 2/3 elements: all register octets (u32/i16/u16, full range incl. sign) "
-                     "and all text characters are free at once, the scaler of each element in turn is free in -3..3; the real construct grammar and normalisation run on it; per path the solver "
+                     "and all text characters (any 7-bit ASCII value, NUL included) are free at once, the scaler of each element in turn is free in -3..3; the real construct grammar and normalisation run on it; per path the solver "
                      "proves keys == expected names and every value == register*10^scaler (exact, or its correctly rounded float), texts verbatim, manufacturer, frame == bare body.",
                 note="Trusted: z3, symx proxies and construct/Decimal/float models (every path replayed on the pristine decoder), the independent A-XDR walker and name tables in spec/cosem_ref.py. "
                      "float(Decimal) assumed correctly rounded.",
                 technique="symbolic execution of the real construct grammar and normalisation with all value octets as z3 variables; comparison with an independent reference dictionary per path"),
     "C08": dict(level="model_checking", design="§4 C07-C09",
-                text="All six Kaifa layouts (positional 1, 9, 13, 14, 18 items and the OBIS-tagged SE list) with every 32-bit register octet and every text character free at once: per path the "
+                text="All six Kaifa layouts (positional 1, 9, 13, 14, 18 items and the OBIS-tagged SE list) with every 32-bit register octet and every text character (any 7-bit ASCII value; 12-character texts 0x20..0x7F, see DESIGN 6) free at once: per path the "
                      "solver proves the field name of every position/OBIS code, powers/energies == register, currents == correctly rounded register/1000, voltages == register/10 (round() picks the "
                      "transmitted integer), texts verbatim, manufacturer, clock rule (list clock wins over APDU clock), frame == bare body.",
                 note="Trusted: z3, symx proxies incl. the relative-error float model and round() model (sat answers replayed with real floats; every path replayed on the pristine decoder), spec/cosem_ref.py.",
@@ -120,7 +123,7 @@ CHECKS = {
                 technique="bounded symbolic execution of the real decoders on free octet windows of genuine messages; escaping exception or non-termination on a feasible path = violation"),
     "C11": dict(level="model_checking", design="§4 C11",
                 text="Data blocks generated from the IEC 62056-21 syntax - kW/kWh/kvar/kvarh value with every digit free (integer part 1..6, fraction 0..3 digits, leading zeros), unit letters free in case, "
-                     "V/A/var/varh value, free text, 12 free clock digits (valid date-time), CRLF/LF/blank lines, multi-value data sets, two data sets per line - run through the real parser and decoder "
+                     "V/A/var/varh value, free text, 12 free clock digits (valid date-time), CRLF/LF/blank lines, multi-value data sets, a block of multi-value sets only, two data sets per line - run through the real parser and decoder "
                      "(regular expressions interpreted symbolically, float()/int() in the relative-error model): per path the solver proves structure, names, exact-1 <= W <= exact, V = rn(value), clock "
                      "fields, verbatim text, and that decode_p1_readout / decode_p1_readout_content / AutoDecoder agree (plus manufacturer and type id from a free identification line).",
                 note="Trusted: z3, symx proxies incl. regex/int/float/datetime models (every path replayed on the pristine code; float sat answers replayed with real floats), reference parser in spec/concrete.py. "
@@ -128,7 +131,7 @@ CHECKS = {
                 technique="bounded symbolic execution of the real parser/decoder on syntax-generated blocks with symbolic digits; float kernel int(float(v)*1000) in the relative-error model (QF_LIRA+UF)"),
     "C13": dict(level="model_checking", design="§4 C13",
                 text="Lemma with stub readers: 2 (quick) / 3 (thorough) candidate readers whose read() returns 0..2 messages per call, each with free is_valid and free payload kind (None/empty/non-empty), "
-                     "2/3 data_received calls, both protocol classes, real asyncio.Queue; every path is compared with a reference selection function over the same Booleans - this covers every stream and "
+                     "2/3 data_received calls, both protocol classes, real asyncio.Queue; the stubs are indexed by chunk (a candidate that is not fed a chunk loses it) and every path is compared with a reference selection function over the whole plan - this covers every stream and "
                      "chunking up to the message counts because the protocol sees readers only through read()/is_valid/payload. Corollary: the real HDLC and P1 readers on spec-built clean streams "
                      "(header-only frame, free payload octet / free digit), candidate lists [HDLC], [P1], [HDLC,P1], [P1,HDLC], stuffing variant, several splittings.",
                 note="Trusted: z3, symx proxies (every path replayed on the pristine protocol classes with concrete stub readers / real readers).",
